@@ -194,7 +194,13 @@ pub fn run_case(c: &Sexp) -> Sexp {
                 _ => return bad("codec name"),
             };
             if op == "codec" {
-                let data = a[2].as_hex().unwrap_or(&[]).to_vec();
+                // payload: #hex, or (rep BYTE COUNT) for long runs
+                let data = match a[2].tagged() {
+                    Some(("rep", r)) if r.len() == 2 => {
+                        vec![r[0].as_u64().unwrap_or(0) as u8; r[1].as_u64().unwrap_or(0) as usize]
+                    }
+                    _ => a[2].as_hex().unwrap_or(&[]).to_vec(),
+                };
                 let mut buf = data.clone();
                 let c = catch_unwind(AssertUnwindSafe(|| codec.compress(&mut buf)));
                 match c {
@@ -203,7 +209,10 @@ pub fn run_case(c: &Sexp) -> Sexp {
                     Err(_) => return Sexp::tag("obs", vec![Sexp::tag("panic", vec![])]),
                 }
                 let compressed = buf.clone();
+                let long = data.len() > 1_000_000;
                 let d = guarded(|| match codec.decompress(&mut buf) {
+                    // a long run is reported by length and equality only
+                    Ok(()) if long => ok(vec![Sexp::num(buf.len() as u64), Sexp::num((buf == data) as i64)]),
                     Ok(()) => ok(vec![Sexp::hex(&buf)]),
                     Err(_) => err(),
                 });
